@@ -60,7 +60,7 @@ fn main() {
             cfg.clock_offsets = vec![0; nworkers];
             let ops: Vec<ClientOp> = src.split(";;").map(|l| ClientOp::Line { session: 0, src: l.to_string() }).collect();
             let sched = if seed == 0 { SchedSpec::fair() } else { SchedSpec::draw(&mut rng, nworkers, true, 200) };
-            let spec = RunSpec { cfg, ops, modules: vec![], sched, seed, replay: None, est_len: 200, tail_bound: 0 };
+            let spec = RunSpec { cfg, ops, modules: vec![], sched, seed, replay: None, est_len: 200, tail_bound: 0, tail_from: None };
             let (r, _) = run::execute_isolated(spec, NoMonitor, true, seed);
             if std::env::var("QSIM_LOG").is_ok() {
                 for l in r.log.as_ref().unwrap() {
